@@ -121,6 +121,42 @@ def pragma_state(inc, hs, bdir):
     return out
 
 
+def cxx_types(inc, h, names, bdir):
+    """the C++ type of each integer-valued name when the header is included alone (an enumerator has its enumeration's
+    type, a macro that expands to a literal has type int): {name: spelled type}"""
+    tag = re.sub(r'\W', '_', h)
+    src = os.path.join(bdir, 'cxxt_%s.cc' % tag)
+    with open(src, 'w') as f:
+        f.write('#include <typeinfo>\n#include <cstdio>\n#include "%s"\nint main(){\n' % h)
+        for n in names:
+            f.write('printf("%s %%s\\n", typeid(%s).name());\n' % (n, n))
+        f.write('return 0;}\n')
+    r = core.sh(['g++', '-std=gnu++11', '-w', '-I' + inc, src, '-o', src[:-3]])
+    if r.returncode != 0:
+        return {}
+    out = {}
+    for line in core.sh([src[:-3]]).stdout.splitlines():
+        n, m = line.split()
+        t = core.sh(['c++filt', '-t', m]).stdout.strip()
+        if t and '<' not in t and '{' not in t and '(' not in t:
+            out[n] = t
+    return out
+
+
+def inline_bodies(inc, hs):
+    """static inline functions by name: {name: {header: normalised body}}"""
+    out = {}
+    for h in hs:
+        src = strip_comments(open(os.path.join(inc, h)).read())
+        for m in re.finditer(r'static\s+inline\s+[\w\s\*]+?\b(\w+)\s*\(([^)]*)\)\s*\{', src):
+            depth, i = 1, m.end()
+            while i < len(src) and depth:
+                depth += {'{': 1, '}': -1}.get(src[i], 0)
+                i += 1
+            out.setdefault(m.group(1), {})[h] = re.sub(r'\s+', ' ', src[m.end():i - 1]).strip()
+    return out
+
+
 def lang_facts(inc, hs, facts):
     """A fact is only asserted in a language in which it holds when its header is included ALONE (the value comes from a C
     probe; GNU C accepts things C++ does not). What is left can only fail because of the other headers of a configuration.
@@ -156,7 +192,10 @@ def lang_facts(inc, hs, facts):
     return facts_l, dropped, nohost
 
 
-def tu_text(hs, facts):
+CTYPES = {}
+
+
+def tu_text(hs, facts, cxx=False):
     out = ['#include <stddef.h>']
     for h in hs:
         out.append('#include "%s"' % h)
@@ -167,6 +206,9 @@ def tu_text(hs, facts):
             if kind == 'N':
                 # the value, and the name used inside an expression (a macro body that lacks its parentheses)
                 out.append('typedef char vsa_%d[((long long)(%s) == %dLL && (2 * %s) == (2 * (%s)) && (%s * 2) == ((%s) * 2) && (0 - %s) == (0 - (%s))) ? 1 : -1]; /* %s from %s */' % (k, name, v, name, name, name, name, name, name, name, h))
+                if cxx and name in CTYPES.get(h, {}):
+                    k += 1
+                    out.append('typedef char vsa_%d[__is_same(__typeof__(%s), %s) ? 1 : -1]; /* %s from %s */' % (k, name, CTYPES[h][name], name, h))
             elif kind == 'A':
                 out.append('typedef char vsa_%d[(__alignof__(%s) == %d) ? 1 : -1]; /* sizeof %s from %s */' % (k, name, v, name, h))
             else:
@@ -216,7 +258,7 @@ def shrink(cfg, langs, inc, facts):
             fails = False
             for lang, cmd in LANGS:
                 if lang in langs:
-                    pp = subprocess.run(cmd + ['-fsyntax-only', '-w', '-I' + inc, '-'], input=tu_text(trial, facts[lang] if lang in facts else facts), stdout=subprocess.PIPE, stderr=subprocess.PIPE, text=True)
+                    pp = subprocess.run(cmd + ['-fsyntax-only', '-w', '-I' + inc, '-'], input=tu_text(trial, facts[lang] if lang in facts else facts, lang.startswith('c++')), stdout=subprocess.PIPE, stderr=subprocess.PIPE, text=True)
                     fails = fails or pp.returncode != 0
             if fails:
                 cur = trial
@@ -238,6 +280,19 @@ def run(prop, tier):
         facts[h] = compile_probe(inc, h, macros + enums, types, b) or {}
         nfacts += len(facts[h])
     facts_l, dropped, nohost = lang_facts(inc, hs, facts)
+    # a static inline function defined in more than one header (under a shared guard) with different bodies: which body a
+    # unit gets depends on the order of its #include lines
+    for fn, defs in sorted(inline_bodies(inc, hs).items()):
+        res.counters['cases'] = res.counters.get('cases', 0) + 1
+        if len(set(defs.values())) > 1:
+            hh = sorted(defs)
+            res.viol[('C20', 'pair:%s+%s inline function %s has different bodies' % (hh[0], hh[1], fn))] = {'count': 1, 'case': 'pair:%s+%s' % (hh[0], hh[1]),
+                'detail': 'static inline %s is defined in %s with different bodies; the first header included decides what the unit computes' % (fn, ', '.join(hh)), 'tag': ''}
+    # C++: the type of each name (an enumerator that is also a macro elsewhere changes type with the set of headers)
+    ctypes = {}
+    for h in hs:
+        ctypes[h] = cxx_types(inc, h, [n for (k, n) in facts[h] if k == 'N'], b)
+    CTYPES.clear(); CTYPES.update(ctypes)
     st = pragma_state(inc, hs, b)
     if not st[None]:
         core.die_infra('pragma-state probe does not build')
@@ -281,9 +336,9 @@ def run(prop, tier):
                 cfg_l = tuple(h for h in cfg if (lang, h) not in nohost)
                 if len(cfg_l) < 2 and kind != 'single' or not cfg_l:
                     continue
-                jobs.append((ci, kind, cfg_l, lang, cmd, tu_text(cfg_l, facts_l[lang])))
+                jobs.append((ci, kind, cfg_l, lang, cmd, tu_text(cfg_l, facts_l[lang], lang.startswith('c++'))))
                 continue
-            jobs.append((ci, kind, cfg, lang, cmd, tu_text(cfg, facts_l[lang])))
+            jobs.append((ci, kind, cfg, lang, cmd, tu_text(cfg, facts_l[lang], lang.startswith('c++'))))
 
     def one(j):
         ci, kind, cfg, lang, cmd, text = j
@@ -358,13 +413,13 @@ def run(prop, tier):
             break
         for lang, cmd in LANGS:
             kl = tuple(h for h in keep if (lang, h) not in nohost)
-            rjobs.append((0, kind + '-reduced', kl, lang, cmd, tu_text(kl, facts_l[lang])))
+            rjobs.append((0, kind + '-reduced', kl, lang, cmd, tu_text(kl, facts_l[lang], lang.startswith('c++'))))
         # and the complementary reduction: drop the earlier header instead
         drop2 = {a for (a, c) in pair_fail if a in cfg and c in cfg and cfg.index(a) < cfg.index(c)} | {h for h in cfg if h in single_fail}
         keep2 = tuple(h for h in cfg if h not in drop2)
         for lang, cmd in LANGS:
             kl = tuple(h for h in keep2 if (lang, h) not in nohost)
-            rjobs.append((0, kind + '-reduced', kl, lang, cmd, tu_text(kl, facts_l[lang])))
+            rjobs.append((0, kind + '-reduced', kl, lang, cmd, tu_text(kl, facts_l[lang], lang.startswith('c++'))))
     with cf.ThreadPoolExecutor(core.NCPU) as ex:
         for j, rc, err in ex.map(one, rjobs):
             res.counters['cases'] += 1
